@@ -262,3 +262,28 @@ def apalache_inductive(module: str, cinit: str, init: str, ind_init: str, inv: s
             raise MachineryError(f"apalache did not discharge the {name} case of {module}!{inv}:\n" + p.stdout[-1500:])
         out[name + "_s"] = round(time.time() - t0, 1)
     return out
+
+
+def simulate_json(module: str, cfg: str, num: int, depth: int, seed: int, timeout: int = 1800) -> list:
+    """spec -> code: run TLC's random simulation on spec/<module>.tla; an always-true invariant of the module prints finished
+    behaviours as JSON strings (one per line).  Returns the distinct parsed behaviours."""
+    import json
+    meta = tempfile.mkdtemp(prefix="tlcsim_")
+    try:
+        cmd = _java_cmd(("-XX:+UseParallelGC",), tmpdir=meta) + ["-simulate", f"num={num}", "-depth", str(depth), "-workers", "1",
+                                                                "-seed", str(seed), "-metadir", meta, "-noGenerateSpecTE",
+                                                                "-config", cfg, module + ".tla"]
+        p = subprocess.run(cmd, cwd=SPEC_DIR, capture_output=True, text=True, timeout=timeout)
+    finally:
+        shutil.rmtree(meta, ignore_errors=True)
+    out = p.stdout
+    if "Error:" in out:
+        raise MachineryError(f"TLC simulation of {module} reported an error:\n" + out[out.find("Error:"):][:2000])
+    hists = {}
+    for line in out.splitlines():
+        if line.startswith('"[') or line.startswith('"{'):
+            h = json.loads(json.loads(line))
+            hists[json.dumps(h, sort_keys=True)] = h
+    if not hists:
+        raise MachineryError(f"TLC simulation of {module} produced no behaviour:\n" + out[-1500:])
+    return [hists[k] for k in sorted(hists)]
